@@ -67,6 +67,35 @@ theorem style_new_appended (ds : List (Str × Str)) (k v : Str) (h : ∀ d ∈ d
     simp only [mergeStyleDecl, hb, Bool.false_eq_true, ↓reduceIte, List.cons_append]
     rw [ih (fun x hx => h x (by simp [hx]))]
 
+/-- the kebab form inserts a hyphen before every capital that is NOT the first character, and only there: text without capitals is
+    unchanged … -/
+theorem camelToKebab_without_capitals (r : Str) (b : Bool) (h : ∀ d ∈ r, ¬ ('A' ≤ d ∧ d ≤ 'Z')) : camelToKebab r b = r := by
+  induction r generalizing b with
+  | nil => simp [camelToKebab]
+  | cons c r ih =>
+    have hc : ¬ ('A' ≤ c ∧ c ≤ 'Z') := h c (by simp)
+    have hr := ih false (fun d hd => h d (by simp [hd]))
+    have hcond : (!b && decide ('A' ≤ c) && decide (c ≤ 'Z')) = false := by
+      cases b
+      · simp only [Bool.not_false, Bool.true_and, Bool.and_eq_false_iff, decide_eq_false_iff_not]
+        by_cases h1 : 'A' ≤ c
+        · exact Or.inr (fun h2 => hc ⟨h1, h2⟩)
+        · exact Or.inl h1
+      · simp
+    unfold camelToKebab
+    rw [hcond, hr]
+    simp
+
+/-- … and the FIRST character is kept as written, capital or not: a key such as `Color` or `Top` is the property name `Color` / `Top`, the
+    name a static declaration spelled the same way has - which is what makes the bound value override it in place (`style_override_in_place`) -/
+theorem camelToKebab_keeps_leading_capital (c : Char) (r : Str) (h : ∀ d ∈ r, ¬ ('A' ≤ d ∧ d ≤ 'Z')) : camelToKebab (c :: r) true = c :: r := by
+  simp only [camelToKebab]
+  rw [camelToKebab_without_capitals r false h]
+  simp
+
+example : camelToKebab "Color".toList true = "Color".toList ∧ camelToKebab "fontSize".toList true = "font-size".toList ∧
+    camelToKebab "WebkitTransition".toList true = "Webkit-transition".toList := by decide
+
 /-- a style value is a CSS value, not a condition: what decides whether a pair contributes a declaration is whether its string form is
     empty — never its truthiness. The number 0 (falsy) contributes `opacity:0;` -/
 theorem style_pair_by_string_form (k : Str) (x : Val) :
